@@ -106,7 +106,8 @@ def build(pos, value):
                         where=A.BinaryOperation('in', args=[A.Identifier('b'), A.Tuple([A.Constant(3), c, A.Constant(4.5)])]))
     if pos == 'in-long':
         # a list long enough to cross any "small list" threshold in the renderer
-        items = [A.Constant(1000 + i) for i in range(40)] + [c] + [A.Constant(f's{i}') for i in range(40)]
+        # (well over a thousand characters of text, the other items holding blanks of their own)
+        items = [A.Constant(1000 + i) for i in range(40)] + [c] + [A.Constant(f'Customer{i:03d} Family{i:03d}') for i in range(60)]
         return A.Select(targets=[A.Identifier('a')], from_table=A.Identifier('t1'),
                         where=A.BinaryOperation('in', args=[A.Identifier('b'), A.Tuple(items)]))
     if pos == 'neg':
@@ -374,6 +375,8 @@ def run_shard(ctx):
     for n in range(1, maxlen + 1):
         values += [''.join(p) for p in itertools.product(ALPHA, repeat=n)]
     values += INJECTION + CONTROL
+    # very long constants (past any length at which a renderer might cut a literal into pieces), quotes at and around round offsets
+    values += ['x' * 3999 + "'" + 'y' * 10, 'x' * 4000 + "'", ("a" * 996 + "'") * 9, 'z' * 8191 + "''" + 'z', 'b' * 4001, ('q ' * 2100).strip(), 'c' * 32767 + "'"]
     r = ctx.sub_rng('values')
     pool = ALPHA * 2 + ['b', 'Z', '0', '/', '*', '\t', '漢', '🙂', 'ß', '.', ',', '(', ')', '`', '@', '?', ' ']
     for _ in range(200 if ctx.tier == 'quick' else 3000):
